@@ -119,7 +119,7 @@ def names_monitor(ex, spec, extents):
 
 
 def evaluate(case, monitors=("result", "names"), log_updates=False, compiled=None,
-             expected=None):
+             expected=None, content_addressed=False):
     """Compile + execute + standard oracles."""
     out = Outcome()
     spec = case.spec
@@ -130,7 +130,8 @@ def evaluate(case, monitors=("result", "names"), log_updates=False, compiled=Non
         out.message = "%s: %s" % (c.etype, c.error)
         return out
     ex = run.execute(c.text, spec, case.inputs, case.extents, case.scalars,
-                     mode=case.mode, log_updates=log_updates)
+                     mode=case.mode, log_updates=log_updates,
+                     content_addressed=content_addressed)
     out.ex = ex
     if not ex.ok:
         if ex.etype in ("ModelUnsupported", "RecursionError"):
